@@ -40,6 +40,9 @@ TNormal ==
   \/ Is("StubRet") /\ Step /\ UNCHANGED <<rvars, hstamp>> /\ ~Ev.panicked
        /\ ((~Ev.resnil) => (Ev.restok = Ev.tok))
   \/ Is("Routers") /\ Step /\ UNCHANGED <<rvars, hstamp>> /\ Ev.count = CountOn(Ev.node)
+  \* C10: after the environment's crashes and restarts, with every server up
+  \* again, a quorum call that needs all nodes succeeded
+  \/ Is("Probe") /\ Step /\ UNCHANGED <<rvars, hstamp>> /\ Ev.ok
   \/ Is("ProgEnd") /\ Step /\ UNCHANGED <<rvars, hstamp>>
        /\ Ev.clean /\ NoResidue /\ Ev.callgoroutines = 0
 
